@@ -108,14 +108,14 @@ Theorem C05_om_document_in_grammar : forall fams out, Forall fam_grammar_ok_om f
   exists ls, out = unlines (ls ++ [L_EOF]) /\ Forall (fun l => nlf l = 0%nat /\ om_line_ok l = true) ls /\ ~ In L_EOF ls.
 Proof. exact om_render_doc_ok. Qed.
 
-(* non-vacuity: a family with hostile strings everywhere, a unit, a nanosecond timestamp and an exemplar with hostile
-   label strings satisfies the hypotheses and is exposed as 5 lines *)
+(* non-vacuity: a (native-histogram style) family with hostile strings everywhere, a unit, a nanosecond timestamp and an
+   exemplar with hostile label strings satisfies the hypotheses and is exposed as 5 lines *)
 Example C05_document_example :
   let hostile := [LF; DQ; BS; 32; 35; 123; 125; 44; LF] in
   let s := {| s_name := hostile; s_labels := [(hostile, hostile)]; s_value := FFin true (s2l "1.0"); s_ts_ms := Some 1500%Z;
               s_ts_om := Some (TsNanos 1 500000000);
               s_ex := Some {| ex_labels := [(hostile, hostile)]; ex_value := FFin true (s2l "2.5"); ex_ts := Some (TsInt 7) |} |} in
-  let f := {| f_name := hostile; f_doc := hostile; f_type := s2l "gauge"; f_unit := hostile; f_samples := [s] |} in
+  let f := {| f_name := hostile; f_doc := hostile; f_type := s2l "histogram"; f_unit := hostile; f_samples := [s] |} in
   fam_grammar_ok f /\ fam_grammar_ok_om f /\ text_doc_ok (text_render [f]) = true /\
   exists out, om_render true [f] = Ok out /\ om_doc_ok out = true /\ nlf out = 5%nat.
 Proof.
